@@ -8,7 +8,7 @@
    -X; `spath g D [] s t p` says p is a simple path s -> t through pairs that have a price
    point at D, `at_most_one_path` that there is no second one (the property's quantifier:
    an edge, a reversed edge, a simple chain). *)
-From LedgerV Require Import Base.Prelude Model.Prices Proofs.PricesProofs.
+From LedgerV Require Import Base.Prelude Gen.PriceMemo Model.Prices Proofs.PricesProofs.
 Local Open Scope Z_scope.
 
 (* ---- which entry an edge offers: the latest not after D, the later insertion winning a tie ---- *)
@@ -131,6 +131,11 @@ Print Assumptions nearest_is_most_recent.
 (* ---- the memo of commodity_t::find_price ---- *)
 (* Recording a price clears every commodity's memo (commodity.cc:62-66): memoised lookups
    answer exactly what plain lookups answer, for every interleaving of lookups and recordings. *)
+Theorem recorded_price_clears_every_memo :
+  add_price_clears_every_memo = true /\ remove_price_clears_every_memo = true.
+Proof. exact every_memo_cleared. Qed.
+Print Assumptions recorded_price_clears_every_memo.
+
 Theorem memo_transparent : forall g ops,
   fst (run_ops (mkState g []) ops) = plain_ops g ops.
 Proof. exact run_ops_transparent. Qed.
